@@ -20,7 +20,7 @@ CaseResult runC01(const Case &c, RunCtx &ctx) {
     try { back.reset(new ezc3d::c3d(path)); }
     catch (...) { Outcome e = classifyCurrentException(); r.fail("saved file does not load: " + e.cls + ": " + e.what); return r; }
     Snap b = takeSnap(*back);
-    ContentOpts co; co.channelNames = false;
+    ContentOpts co; co.channelNames = false; co.trimA = true; co.trimB = false;   // the loaded object must hold the trimmed strings
     std::string d = diffContent(a, b, co);
     if (!d.empty()) r.fail("loaded content differs from saved object: " + d);
     SnapFacts f = factsOf(a);
